@@ -395,6 +395,17 @@ func (m *Model) RunTruthUsers(s *Sink, rule string) {
 				continue
 			}
 		}
+		// @if: decided by case evaluation over the rows of the truthiness table, whatever the shape of evalIfStmt
+		if st.fn == "evalIfStmt" {
+			if bad, decided, _ := m.ifTruthCases(); decided {
+				if bad == "" {
+					s.OK(rule, key, "-", "case evaluation of Eval on an abstract `@if(c) body @end`: the body exactly for truthy conditions (13 condition values, none a singleton), nothing for falsy ones, the error for a failing one")
+				} else {
+					s.Violation(rule, key, "-", "@if: %s — its condition is not decided by the truthiness table of C02", bad)
+				}
+				continue
+			}
+		}
 		if fn == nil {
 			s.Undecided(rule, key, "-", "%s not found (anchor of C02/C03)", st.fn)
 			continue
